@@ -1,5 +1,6 @@
 import SV.Driver.Util
 import SV.Model.Toc
+import SV.Lemmas.TocAgree
 /-
 svdriver_c05: line protocol for the two TOC interpreters (`SV.Toc.memTree`, `SV.Toc.dbTree`).
 
@@ -17,6 +18,7 @@ svdriver_c05: line protocol for the two TOC interpreters (`SV.Toc.memTree`, `SV.
   fopen <store> <L> <path>             -> ok | err
   chunk <store> <L> <path> <offset>    -> <chunkOffset> <chunkSize> <digest> | none
   tocspan <store> <L> <compr> <jsonLen> <trailing> -> whole | json | unspec
+  spec <L>                              -> conf | nonconf   (decides `SpecConforming`, the fragment of the theorems)
 -/
 namespace SV.Driver.C05
 open SV.Driver SV.Toc
@@ -161,6 +163,10 @@ def step (s : St) : List String → St × String
         | .accept t => ({ s with db := setS l (openTree t) s.db }, "ok")
         | .reject => ({ s with db := s.db.filter (·.1 ≠ l) }, "err")
       else (s, "bad-op")
+  | ["spec", l] =>
+    match lookupS l s.tocs with
+    | none => (s, "bad-op")
+    | some res => (s, if decide (SpecConforming res.reverse) then "conf" else "nonconf")
   | ["close", store, l] =>
     -- memory.reader.Close is a no-op; db.reader.Close deletes the layer's bucket
     if store = "mem" then (s, "ok")
